@@ -22,8 +22,11 @@ def tie(rep, tier, rng, model_ok):
     opseq.check(rep, "connection-list", crw, vlib.ATOMH, ["seq"], c14.crw_ref, lambda l: l.count("w,") >= 1 and l.count("c,") >= 1, model_ok, 1,
                 rule="connection lists of port clones: op sequences (clone / connect / send over up to 5 clones) on the verbatim cached_rw_lock.rs vs CachedRw.v")
     a = simprops.corpus_cases("C03") + [simgen.gen_net(rng, hier=(i % 3 == 0)) for i in range(400 if q else 12000)]
+    dl = tuple("%dd%dp%du%d" % (t, rng.randrange(1, 10**6), pm, us) for t, pm, us in ((4, 300, 100), (2, 400, 50)))
+    d = [simgen.gen_net(rng) for _ in range(150 if q else 3000)]
     simprops.run(rep, "C03", model_ok,
-                 [("net", a, (1, 2, 4) if q else (1, 2, 3, 4, 8, 16), ORACLES, nontrivial)],
+                 [("net", a, (1, 2, 4) if q else (1, 2, 3, 4, 8, 16), ORACLES, nontrivial),
+                  ("net-delayed", d, dl, ORACLES, nontrivial)],
                  rep.cov["rule"] + " | 2-5 models, DAG of plain/map/filter_map connections to models and a sink, queries, bursts of 1..3x capacity same-time events into mailboxes of capacity 1..16 (senders block), sources, process_event/process_query; multiset comparison with Sim.v on several thread counts + closure oracle (processed = sent, per accepting connection). non-trivial = >=4 invocations")
 
 
